@@ -21,8 +21,9 @@ ASSUMPTIONS = [
     "only finite numbers; decimals in generated *text* sit on the smallest "
     "unit present (ISO rule); str(d) output may carry decimals on several "
     "units and is still required to round-trip",
-    "alternative spelling restricted to complete date + complete time forms "
-    "and date-only complete forms (values <= 12 months, 30 days, 365 ordinal "
+    "alternative spelling restricted to complete date + complete time forms, "
+    "date-only complete forms and the reduced date-only forms PYYYY-MM / PYYYY"
+    " (which the library accepts)  (values <= 12 months, 30 days, 365 ordinal "
     "days, 24 h, 60 min, 60 s)",
 ]
 
@@ -245,6 +246,17 @@ def st_alt(draw):
             shape += "/decimal"
         exp["hours"], exp["minutes"] = h, mi
         exp["seconds"] = float("%d.%s" % (s, frac)) if frac else s
+    if not with_time and not ordinal and draw(st.integers(0, 3)) == 0:
+        # reduced date-only spellings (year-month, year): accepted by the
+        # library, so they must denote their designator spelling too
+        if draw(st.booleans()):
+            alt = "P%04d-%02d" % (y, exp["months"])
+            exp["days"] = 0
+            shape = "alt/calendar/reduced/year-month"
+        else:
+            alt = "P%04d" % y
+            exp["months"] = exp["days"] = 0
+            shape = "alt/calendar/reduced/year"
     desig = "P%dY%dM%dD" % (exp["years"], exp.get("months", 0), exp["days"])
     if with_time:
         secs = ("%d,%s" % (int(exp["seconds"]), frac)) if frac else "%d" % exp["seconds"]
